@@ -47,7 +47,8 @@ MANIFEST = dict(
               "+ regenerated operator table lemma + model/implementation correspondence by vm_compute",
 )
 
-THEOREMS = ["C10_roundtrip", "C10_precedence", "C10_parens", "C10_fuel", "C10_sound_core", "C10_characterised",
+THEOREMS = ["C10_roundtrip", "C10_roundtrip_stmt", "C10_precedence", "C10_parens", "C10_fuel", "C10_sound_core",
+            "C10_characterised",
             "C10_optable", "C10_lex_tables"]
 ALLOWED_AXIOMS = []
 
@@ -165,6 +166,30 @@ def make_cases(chk, quick):
         if rng.random() < (0.35 if quick else 0.5):
             mt = L.gen_mutation(rng, tk)
             cases.append(dict(src=L.render(mt, rng, tight=0.0), kind="mutated", expect=None))
+    # statements of the model: let name = e, procedure calls
+    for n in range(300 if quick else 3000):
+        depth = rng.choice([1, 2, 3, 4])
+        if rng.random() < 0.5:
+            t = L.gen_tree(rng, depth)
+            name = rng.choice(L.IDENTS)
+            tk = [("Let", None), ("Identifier", name), ("Equal", None)] + L.toks(t)
+            expect = "OK (let %s %s)" % (L.esc(name), L.sexpr(t))
+        else:
+            kind, word = rng.choice([("ProcedurePrint", "print"), ("ProcedureAssert", "assert"),
+                                     ("ProcedureAssertEq", "assert_eq"), ("ProcedureType", "type")])
+            args = [L.gen_tree(rng, depth - 1) for _ in range(rng.choice([0, 1, 1, 2, 3]))]
+            tk = [(kind, None), ("LeftParen", None)]
+            for i, a in enumerate(args):
+                if i:
+                    tk.append(("Comma", None))
+                tk += L.toks(a)
+            tk.append(("RightParen", None))
+            expect = "OK (%s%s)" % (word, "".join(" " + L.sexpr(a) for a in args))
+        if len(tk) > 120:
+            continue
+        cases.append(dict(src=L.render(tk, rng, tight=rng.choice([0.0, 0.3])), kind="statement", expect=expect, tokens=tk))
+        if rng.random() < 0.4:
+            cases.append(dict(src=L.render(L.gen_mutation(rng, tk), rng, tight=0.0), kind="mutated", expect=None))
     for n in range(700 if quick else 6000):
         cases.append(dict(src=L.gen_soup(rng), kind="soup", expect=None))
     for n in range(500 if quick else 4000):
